@@ -69,3 +69,22 @@ Definition contains_sub (sub s : ustr) : bool := contains_sub_aux (S (length s))
 
 Definition all_digits (s : ustr) : bool :=
   match s with [] => false | _ => forallb (fun c => memN c ascii_digit_cps) s end.
+
+(* decimal text of a number: str(n) *)
+Fixpoint digits_of_uint (d : Decimal.uint) : ustr :=
+  match d with
+  | Decimal.Nil => []
+  | Decimal.D0 r => 48%N :: digits_of_uint r | Decimal.D1 r => 49%N :: digits_of_uint r
+  | Decimal.D2 r => 50%N :: digits_of_uint r | Decimal.D3 r => 51%N :: digits_of_uint r
+  | Decimal.D4 r => 52%N :: digits_of_uint r | Decimal.D5 r => 53%N :: digits_of_uint r
+  | Decimal.D6 r => 54%N :: digits_of_uint r | Decimal.D7 r => 55%N :: digits_of_uint r
+  | Decimal.D8 r => 56%N :: digits_of_uint r | Decimal.D9 r => 57%N :: digits_of_uint r
+  end.
+Definition z_to_str (z : Z) : ustr :=
+  match z with
+  | Z0 => [48%N]
+  | Zpos p => digits_of_uint (Pos.to_uint p)
+  | Zneg p => 45%N :: digits_of_uint (Pos.to_uint p)
+  end.
+
+Definition nat_to_str (n : nat) : ustr := z_to_str (Z.of_nat n).
